@@ -119,6 +119,10 @@ Local Notation strip_digits_loop := (strip_digits_loop M).
 Local Notation replace_ch1 := (replace_ch1 M).
 Local Notation without_suffix_nc_loop := (without_suffix_nc_loop M).
 Local Notation with_word := (with_word M TH PG OV jk true).
+Local Notation indent_loop := (indent_loop M TH PG OV jk true).
+Local Notation indented1 := (indented1 M TH PG OV jk true).
+Local Notation append_s := (append_s M TH PG OV jk true).
+Local Notation append_ch := (append_ch M TH PG OV jk true).
 Local Notation append_c := (append_c M TH PG OV jk true).
 Local Notation without_prefix_nc_loop := (without_prefix_nc_loop M TH PG OV jk true).
 
@@ -574,6 +578,59 @@ Proof.
   - now apply src_ok_of.
   - cbn [src_of snd]. unfold LIM in *. lia.
   - split; trivial. rewrite A4, A3. change (src_bytes (src_of after)) with (abs after). rewrite Aa. reflexivity.
+Qed.
+
+(* ---------------------------------------------------------------- IndentedBy *)
+
+Lemma indent_loop_spec pad l : src_ok pad -> snd pad < LIM -> forall seen r,
+  inv r -> slen r + lenN l * (snd pad + 1) + 1 <= LIM ->
+  inv (indent_loop pad seen l r) /\ abs (indent_loop pad seen l r) = indent_fold (src_bytes pad) seen l (abs r).
+Proof.
+  intros P Bp. assert (Lp : lenN (src_bytes pad) = snd pad) by now apply lenN_src_bytes.
+  induction l as [|c t IH]; intros seen r I B; cbn [StrModel.indent_loop indent_fold]; [split; trivial|].
+  rewrite lenN_cons in B.
+  assert (Step : forall r', inv r' -> slen r' + 1 + lenN t * (snd pad + 1) + 1 <= LIM -> forall seen',
+            inv (indent_loop pad seen' t (append_ch r' c)) /\
+            abs (indent_loop pad seen' t (append_ch r' c)) = indent_fold (src_bytes pad) seen' t (abs r' ++ [c])).
+  { intros r' I' B' seen'. destruct (append_ch_spec r' c I') as (Ia & Aa); [unfold LIM in *; lia|].
+    rewrite <- Aa. apply IH; trivial. rewrite <- (lenN_abs _ Ia), Aa, lenN_app, (lenN_abs r' I'), lenN_cons, lenN_nil. lia. }
+  destruct ((c =? 10) || (c =? 13)); [apply Step; trivial; nia|].
+  destruct seen; [apply Step; trivial; nia|].
+  destruct (append_s_spec r (Some pad) I) as (Ip & Ap).
+  { split; trivial. }
+  { cbn [StrModel.osrc]. nia. }
+  cbn [StrModel.osrc] in Ap. rewrite <- Ap. apply Step; trivial.
+  rewrite <- (lenN_abs _ Ip), Ap, lenN_app, (lenN_abs r I), Lp. nia.
+Qed.
+
+Lemma indented_spec s n ch :
+  subj_ok s -> slen s * (n + 1) + n + 1 <= LIM ->
+  inv (indented1 s n ch) /\ abs (indented1 s n ch) = l0_indented (abs s) n ch.
+Proof.
+  intros Sb B. pose proof Sb as [I Bs]. unfold StrModel.indented1, l0_indented.
+  destruct ((n =? 0) || (ch =? 0)) eqn:E; [now apply copy_spec|].
+  apply orb_false_iff in E. destruct E as [En Ec]. apply N.eqb_neq in En.
+  destruct inv_empty1 as (I0 & S0 & A0 & _).
+  assert (Se : subj_ok empty1) by (split; trivial; rewrite S0; unfold LIM; lia).
+  destruct (padded_spec empty1 n false ch Se) as (Ip & Ap); [unfold LIM in *; nia|].
+  set (pad := StrModel.padded1 M TH PG OV jk true empty1 n false ch) in *.
+  unfold l0_padded in Ap. rewrite A0, lenN_nil in Ap.
+  assert (X : (0 <? n) = true) by (apply N.ltb_lt; lia). rewrite X, Ec in Ap. cbn [negb andb] in Ap.
+  rewrite N.sub_0_r, app_nil_r in Ap.
+  assert (Lp : slen pad = n) by (rewrite <- (lenN_abs pad Ip), Ap; apply lenN_repN).
+  assert (Pok : src_ok (src_of pad)) by now apply src_ok_of.
+  assert (Bp : snd (src_of pad) < LIM) by (cbn [src_of snd]; rewrite Lp; unfold LIM in *; nia).
+  rewrite <- Ap. change (abs pad) with (src_bytes (src_of pad)).
+  destruct ((nthN 0 (abs s) =? 13) || (nthN 0 (abs s) =? 10)).
+  - destruct (set_from_spec empty1 (Some (src_of pad)) 0 NOLIMIT I0) as (r0 & E0 & Ir & Ar); [split; trivial|].
+    rewrite E0. cbn [snd]. cbn [StrModel.osrc] in Ar.
+    rewrite l0_sub_all' in Ar by (rewrite lenN_src_bytes by trivial; exact Bp).
+    destruct (indent_loop_spec (src_of pad) (abs s) Pok Bp false r0 Ir) as (X1 & X2).
+    { rewrite <- (lenN_abs r0 Ir), Ar, lenN_src_bytes by trivial. cbn [src_of snd]. rewrite Lp, (lenN_abs s I). nia. }
+    split; trivial. rewrite X2, Ar. reflexivity.
+  - destruct (indent_loop_spec (src_of pad) (abs s) Pok Bp false empty1 I0) as (X1 & X2).
+    { rewrite S0. cbn [src_of snd]. rewrite Lp, (lenN_abs s I). nia. }
+    split; trivial. rewrite X2, A0. reflexivity.
 Qed.
 
 End Prod.
